@@ -238,6 +238,78 @@ func TestVerifC17HTTP(t *testing.T) {
 		rr.Close()
 		out.Emit(o)
 	}
+	// a remote file larger than 4 GiB (epoch CARs are hundreds of GiB): reads around the 4 GiB mark. The judge's integers are
+	// 32 bits wide, so the observation is recorded relative to `base`: the virtual file holds c17ByteAt(off - base) at
+	// off >= base, and offsets / size are reported minus base.
+	{
+		const base = int64(1)<<32 - 1500
+		const vsize = int64(1)<<32 + 3000
+		huge := httptest.NewServer(http.HandlerFunc(func(w http.ResponseWriter, r *http.Request) {
+			if r.Method == "HEAD" {
+				w.Header().Set("Content-Length", strconv.FormatInt(vsize, 10))
+				w.Header().Set("Accept-Ranges", "bytes")
+				return
+			}
+			var a, b int64
+			if n, _ := fmt.Sscanf(r.Header.Get("Range"), "bytes=%d-%d", &a, &b); n != 2 || a < 0 || b < a || a >= vsize {
+				w.WriteHeader(416)
+				return
+			}
+			if b >= vsize {
+				b = vsize - 1
+			}
+			if b-a > 1<<20 {
+				b = a + 1<<20 // (never asked for by this phase)
+			}
+			buf := make([]byte, b-a+1)
+			for i := range buf {
+				if off := a + int64(i); off >= base {
+					buf[i] = c17ByteAt(off - base)
+				}
+			}
+			w.Header().Set("Content-Range", fmt.Sprintf("bytes %d-%d/%d", a, b, vsize))
+			w.Header().Set("Content-Length", strconv.Itoa(len(buf)))
+			w.WriteHeader(206)
+			w.Write(buf)
+		}))
+		rr, _, err := NewRemoteHTTPFileAsIoReaderAt(context.Background(), huge.URL+"/huge")
+		o := c17Obs{Kind: "readat", Case: 300, Size: vsize - base, Nontriv: true}
+		if err != nil {
+			o.Fatal = "open: " + err.Error()
+		} else {
+			reads := [][2]int64{{base, 40}, {1<<32 - 10, 20}, {1 << 32, 64}, {1<<32 + 5, 100}, {1<<32 + 1000, 700}, {1<<32 - 300, 200}, {1<<32 + 5, 100}, {vsize - 50, 50}, {vsize - 20, 40}, {base + 7, 3}}
+			for k := 0; k < 12; k++ {
+				reads = append(reads, [2]int64{base + int64(rng.Intn(4400)), int64(1 + rng.Intn(90))})
+			}
+			for _, rd := range reads {
+				off, l := rd[0], rd[1]
+				c := c17Call{Op: "readat", S: off - base, L: l, Up: true, Bytes: []int{}}
+				if p := vt.Guard(func() {
+					buf := make([]byte, l)
+					n, err := rr.ReadAt(buf, off)
+					c.N = n
+					for _, b := range buf[:n] {
+						c.Bytes = append(c.Bytes, int(b))
+					}
+					switch {
+					case err == nil:
+						c.Res = "ok"
+					case err == io.EOF:
+						c.Res = "eof"
+					default:
+						c.Res, c.Err = "err", err.Error()
+					}
+				}); p != "" {
+					c.Res, c.Err = "panic", p
+				}
+				c.Err = fmt.Sprintf("6 GiB-class remote, real offset %d: %s", off, c.Err)
+				o.Calls = append(o.Calls, c)
+			}
+			rr.Close()
+		}
+		huge.Close()
+		out.Emit(o)
+	}
 	// two remote files open at the same time whose URLs differ in the query string only: each handle must return its own
 	// file's bytes (file B's bytes are recorded with the 0x5A mask removed, so both handles are judged by the same rule)
 	mode = "ok"
